@@ -879,6 +879,10 @@ def child_target(gate, ack, kind, arg):
     gate.recv_bytes()
     ack.send_bytes(b'passed')
     if kind == 'ret':
+        if arg == 'closed-stdout':
+            # a target that closed its standard output (a daemonising
+            # application): still "returns normally"
+            sys.stdout.close()
         return
     if kind == 'exc':
         raise {'Exception': Exception, 'Oops': Oops,
@@ -1085,7 +1089,7 @@ def real_main():
 def real_cases(tier):
     T = tier == 'thorough'
     sigs = fatal_signals()
-    full = [('ret', None)]
+    full = [('ret', None), ('ret', 'closed-stdout')]
     full += [('exc', n) for n in ('Exception', 'Oops', 'ValueError')]
     full += [('base', n) for n in ('Boom', 'KeyboardInterrupt',
                                    'GeneratorExit')]
@@ -1097,7 +1101,8 @@ def real_cases(tier):
     bsig = [int(getattr(signal, n)) for n in (
         'SIGKILL', 'SIGTERM', 'SIGINT', 'SIGHUP', 'SIGSEGV', 'SIGUSR1',
         'SIGPIPE')]
-    boundary = [('ret', None), ('exc', 'Exception'), ('base', 'Boom'),
+    boundary = [('ret', None), ('ret', 'closed-stdout'),
+                ('exc', 'Exception'), ('base', 'Boom'),
                 ('base', 'KeyboardInterrupt')]
     boundary += [('exit', n) for n in (0, 1, 2, 3, 127, 128, 255)]
     boundary += [('exit', 'text'), ('exit', None), ('exit-noarg', None)]
